@@ -26,9 +26,9 @@ PARTIAL = [
     "themselves are only exercised (1..25 features, both regimes)",
     "sklearn Ridge is a contract (minimiser of |Lz-t|^2+|z|^2); the model solves the normal equations by Cholesky; "
     "existence (chol? succeeds on the SPD matrix L^T L + I), minimality and uniqueness are proved for the model",
-    "the dimensionality loss equals -(log N(z;0,I) + sum log Poisson pmf) only up to the parameter-free constants "
-    "n*log(k!) (gammaln(j) instead of gammaln(j+1)) and (m-1)*log(2*pi) (prior built with k = initial_value.shape[0] "
-    "= 2): stated exactly in poisson_eq / dim_loss_eq, argmin unaffected",
+    "the dimensionality loss equals -(log N(z;0,I_2m) + sum log Poisson pmf) up to the parameter-free constant n*log(k!) "
+    "(gammaln(j) instead of gammaln(j+1)): stated exactly in poisson_eq / dim_loss_eq_estimator, argmin unaffected (the "
+    "second constant, (m-1)*log(2*pi) from a prior built for 2 instead of 2m latent coordinates, was a defect and is repaired)",
 ]
 ASSUMPTIONS = [
     "Lanczos lgamma of the Float model (about 1e-14 relative) vs XLA's gammaln: tolerances budgeted accordingly",
@@ -403,20 +403,21 @@ def case_dimprep(ctx, res, p):
         ld = L @ z[1] + mu_dens
         lp, mag = o_poisson(dist, dims, ld)
         prior = -0.5 * np.sum(z ** 2) - 0.5 * z.size * LOG_2PI
-        # documented model + the two parameter-free constants (see PARTIAL)
-        const = n * gammaln(k + 1.0) + (mm - 1) * LOG_2PI
+        # documented model + the parameter-free constant n log k! of gammaln(j) vs gammaln(j+1) (see PARTIAL); the prior is
+        # the 2m-dimensional standard normal (fixed defect: _normal used to be told k = 2)
+        const = n * gammaln(k + 1.0)
         ov = -(prior + lp) - const
         scale = mag + abs(prior) + abs(const)
         ok, dev = close(v, ov, TOL_LOSS, scale)
         res.dev("dimprep:loss_impl_vs_closed_form/scale", dev)
         if not ok:
             res.oracle_fail("dimensionality loss differs from -(log N(z;0,I) + sum log Poisson(j; rho V_d r_j^d)) "
-                            "- n log k! - (m-1) log 2pi", p,
+                            "- n log k!", p,
                             detail={"impl": v, "closed_form": float(ov), "scale": float(scale)},
                             signature="C03:dim-loss-closed-form")
         if ctx["driver"] is not None:
             mv = ask_floats(ctx, f"c03dimloss {n} {k} {mm} {bits(dist)} {fbit(mu_dim)} {fbit(mu_dens)} {bits(L)} "
-                                 f"{z0.shape[0]} {bits(z)}")
+                                 f"{z0.size} {bits(z)}")
             ok, dev = (False, float("inf")) if isinstance(mv, str) else close(v, mv[0], TOL_LOSS, scale)
             res.dev("dimprep:loss_model_vs_impl/scale", dev)
             if not ok:
@@ -796,7 +797,7 @@ CLAIM = {
             "p(r_i | exp((Lz+mu)_i), d_i)] with p(r|rho,d) = rho d V_d r^(d-1) exp(-rho V_d r^d), V_d = pi^(d/2)/Gamma(d/2+1) "
             "(scalar or per-cell d); p integrates to 1 over r for every rho, d > 0 (any ball constant); u -> log p(r|e^u,d) is "
             "maximised exactly at util.mle(r,d) with value log(d/r)-1; the k-NN model is sum log Poisson pmf plus the exact "
-            "constant n log k! (and (m-1) log 2pi from the prior's k); defaults: mu = interpolated 1st-percentile order "
+            "constant n log k! (prior: the 2m-dimensional standard normal); defaults: mu = interpolated 1st-percentile order "
             "statistic of the MLE minus 10, ls = e^3 * geometric mean * ls_factor, d = number of features (refused above 50), "
             "ridge start exists and is the unique minimiser of |Lz-t|^2+|z|^2 (difference of objectives = |L dz|^2+|dz|^2), nn distance = attained "
             "minimum over the other cells, k-NN distances = sorted prefix. Tied to /repo by comparing prepare_inference outputs "
